@@ -3,7 +3,8 @@ no error after insertion, no aliasing at definition, catch_unwind at the evaluat
 import re
 from collections import defaultdict
 from lib.facts import CallGraph, find, is_node, path_of
-from lib.mirq import Slice, calls_matching, edge_dominates, result_exits, switch_on_call_result, PASS_THROUGH
+from lib.mirq import Slice, calls_matching, edge_dominates, switch_on_call_result, PASS_THROUGH
+from lib.mirinline import inline_body, result_flow_exits as result_exits, switches_on_bool_result, switches_on_option_result, feasible_reach, option_none_becomes_err
 
 TECHNIQUE = ("who-may-call over the MIR call graph with the evaluator re-entry points cut; provenance of the assignment sink back to the "
              "mutable-variables map through summarised lookup helpers; CFG rules (redefinition test dominates insertion, no Err exit reachable after an "
@@ -15,8 +16,11 @@ EXPLANATION = (
     "with Err before inserting; (R4) no Err exit is reachable after a symbol insertion in the same evaluator; (R5) the value handed to insert is not a "
     "shallow clone of another symbol's cell; (R6) the public interpret entry runs the evaluator inside catch_unwind and no process::exit/abort is reachable "
     "from the evaluator. Not decided: equality of values before/after (runtime)."
-    " (R5, re-keyed) each site that stores the result of the shallow detach helper is keyed by the provenance of what it hands to the helper (callees feeding it and number of plain copies through named variables), so a new aliasing path is a new violation rather than hidden behind the known one; (R3) also accepts validate-all-then-insert-all over the same sequence; (R7) every path from FunctionScope::enter to a return of the caller restores the caller's symbol table, plan and environment (Drop of the guard or an explicit exit)."
+    " (R5, re-keyed) each site that stores the result of the shallow detach helper is keyed by the provenance of what it hands to the helper (callees feeding it and number of shallow clones of a variable's cell content that reach it by plain copies; private helpers producing the value are expanded), so a new aliasing path is a new violation rather than hidden behind the known one; (R3) also accepts validate-all-then-insert-all over the same sequence; (R7) every path from FunctionScope::enter to a return of the caller restores the caller's symbol table, plan and environment (Drop of the guard or an explicit exit)."
     " (R8) operand roles of the assignment compilers: the value evaluated from the statement's right-hand side reaches the kernel's source field and the looked-up variable its sink field, on the native and on the fallback (Value-level) path."
+    " Refactoring-robust view: R2-R5 run on the evaluator's body with the private helpers of its own crate that reach a symbol-table primitive expanded in place (lib/inline.py), "
+    "follow a tested value through named locals / negations / dropped temporaries to the switch that tests it, classify Ok/Err exits by value flow, and prune paths that contradict "
+    "a Result/Option variant built on the path (`helper(..)?` after `return Err(..)` inside the helper); R6 is a call-graph rule over the closures handed to catch_unwind."
     ' (R9) a failing indexed assignment changes nothing: every assignment kernel converts its 1-based index with the overflow-checked `ix - 1` (index 0 is rejected), never with a saturating / wrapping / clamped form.'
 )
 
@@ -68,19 +72,22 @@ def _loops(b):
     return out
 
 
+ITER_ADAPTORS = re.compile(r"::enumerate$|::len$|::iter_mut$|::rev$|::by_ref$|::peekable$|::cloned$|::copied$|::as_slice$|::as_mut_slice$")
+
+
 def _iter_roots(b, header, body):
-    """places the loop's iterator is built from: roots of the receiver of the `next()` call in the loop"""
-    sl = Slice(b)
+    """what the loop walks: the non-constant roots of the receiver of the `next()` call in the loop, seen through the adaptors that keep the
+    sequence (`v.iter().enumerate()`, `for i in 0..v.len()`, a named local for `&x.field`) - so an iterator loop and an index loop over the same
+    vector agree, and so do a loop written inline and the same loop inside an expanded helper (parameters are plain copies of the arguments)"""
+    sl = Slice(b, extra_pass=ITER_ADAPTORS)
     for blk in sorted(body):
         t = b.blocks[blk]["t"]
         if t["k"] == "call" and (t.get("f") or t["tf"]).endswith("::next") and t["args"]:
             roots = set()
             for r in sl.roots(t["args"][0]):
+                if r[0] in ("const", "op", "agg"):
+                    continue                            # `0..n` is an aggregate of a constant and n: what counts is where n comes from
                 roots.add(str(r[1:]) if r[0] != "call" else "call:" + str(r[1]))
-            fields = set()
-            for r in sl.roots(t["args"][0]):
-                if r[0] in ("arg", "place", "local"):
-                    fields.add(str(r))
             return roots
     return None
 
@@ -102,6 +109,7 @@ def two_pass(b, ci, i):
 
 def run(F, rep, tier):
     shallow_sites.clear()
+    _relevant.clear()
     cg = CallGraph(F, [INTERP, CORE, "mech.lib", "mech_wasm.lib"])
     rep.rule("C05-R1", "SymbolTable insertion reachable only from define-family statement evaluators (assignment paths never create or replace a binding)")
     rep.rule("C05-R2", "assignment evaluators take the cell they mutate only from lookups that read the mutable-variables map")
@@ -129,6 +137,7 @@ def run(F, rep, tier):
         reach = cg.reach([root], cut=cut)
         return insert_fn in reach, reach
 
+    evaluators = {f for f in cg.bodies if f.startswith("mech_interpreter::") and f.split("::")[-1] in set(arms.values()) | {"statement"}}
     for v, fn in sorted(arms.items()):
         full = "mech_interpreter::statements::%s" % fn
         if full not in cg.bodies:
@@ -146,7 +155,7 @@ def run(F, rep, tier):
                       "the %s evaluator can reach SymbolTable::insert (path: %s): an assignment could create or replace a binding" % (v, " -> ".join(path or [])), cg.bodies[full].where(),
                       sample={"statement": v, "evaluator": full, "reachable_bodies": len(reach)})
             # also no direct HashMap::insert on the symbol maps
-        check_evaluator(F, rep, cg, v, full, v in ASSIGN, mut_i, sym_i, insert_fn)
+        check_evaluator(F, rep, cg, v, full, v in ASSIGN, mut_i, sym_i, insert_fn, evaluators)
 
     for h, sites in sorted(shallow_sites.items()):
         per = defaultdict(int)
@@ -162,24 +171,35 @@ def run(F, rep, tier):
     # R6
     interp = [b for f, b in cg.bodies.items() if re.search(r"interpreter::Interpreter::interpret$", f)]
     rep.floor("C05-R6", "Interpreter::interpret", len(interp), 1)
+    CU = re.compile(r"std::panic::catch_unwind$|panicking::(r#)?try$|panic::catch_unwind")
+    EVAL = re.compile(r"mechdown::program$|statements::statement$")
+    eval_fns = {f for f in cg.bodies if EVAL.search(f)}
     for b in interp:
-        cu = calls_matching(b, r"std::panic::catch_unwind$|panicking::(r#)?try$|panic::catch_unwind")
-        ok = False
-        for i, t in cu:
-            # the closure passed must (transitively) reach the program evaluator
-            fns = set()
-            for g in t.get("ga", []):
+        # Call-graph formulation (insensitive to where in interpret's own code - inline, in a private helper, behind a named closure - the boundary
+        # is written): the closures handed to catch_unwind anywhere on the way from interpret to the evaluator are the GUARDED entries; the
+        # evaluator must be reachable through a guarded entry and must not be reachable from interpret once the guarded entries are cut out.
+        before_eval = cg.reach([b.fn], cut=eval_fns)
+        guarded = set()
+        n_cu = 0
+        for f in sorted(before_eval):
+            fb = cg.bodies.get(f)
+            if fb is None or fb.crate != b.crate:
+                continue
+            for i, t in calls_matching(fb, CU):
+                n_cu += 1
                 from lib.facts import fns_in_type
-                fns |= set(fns_in_type(g))
-            for c in fns:
-                r = cg.reach([c])
-                if any(re.search(r"mechdown::program$|statements::statement$", x) for x in r):
-                    ok = True
+                for g in t.get("ga", []):
+                    guarded |= set(fns_in_type(g))
+                for a_ in t.get("args", []):
+                    if isinstance(a_, dict) and "fn" in a_:
+                        guarded |= set(fns_in_type(a_["fn"]))
+        ok = any(cg.reach([g]) & eval_fns for g in sorted(guarded))
         rep.check(ok, "C05-R6", "interpret:catch_unwind", "Interpreter::interpret does not run the program evaluator inside catch_unwind: a panicking statement aborts the host", b.where(),
-                  sample={"catch_unwind_calls": len(cu)})
-        # evaluator called outside catch_unwind?
-        direct = [t["l"] for i, t in b.calls() if re.search(r"mechdown::program$", t.get("f") or t["tf"])]
-        rep.check(not direct, "C05-R6", "interpret:no-unprotected-evaluation", "interpret() calls the program evaluator outside catch_unwind (lines %s)" % direct, b.where())
+                  sample={"catch_unwind_calls": n_cu})
+        # evaluator reachable outside catch_unwind?
+        unprotected = sorted(cg.reach([b.fn], cut=guarded) & eval_fns)
+        path = cg.path([b.fn], lambda f: f in eval_fns, cut=guarded) if unprotected else None
+        rep.check(not unprotected, "C05-R6", "interpret:no-unprotected-evaluation", "interpret() can reach the program evaluator outside catch_unwind (%s)" % " -> ".join(path or unprotected), b.where())
     roots = [f for f in cg.bodies if re.search(r"mechdown::program$", f)]
     if roots:
         reach = cg.reach(roots)
@@ -196,8 +216,44 @@ def run(F, rep, tier):
 shallow_sites = defaultdict(list)
 
 
-def check_evaluator(F, rep, cg, variant, full, is_assign, mut_i, sym_i, insert_fn):
+DATA_PASS_THROUGH = re.compile(PASS_THROUGH.pattern.replace(r"::from_residual$|", ""))
+assert "from_residual" not in DATA_PASS_THROUGH.pattern
+PRIMITIVE = re.compile(r"(symbol_table::SymbolTable|program::ProgramState)::(get\w*|contains\w*)$")
+_relevant = {}
+
+
+def evaluator_view(cg, full, insert_fn, evaluators=(), values=False):
+    """The evaluator's body with the private helpers of its own crate that (without re-entering the expression evaluator) reach a symbol-table
+    primitive - insertion, `contains*`, `get*` - expanded in place: a guard, an insertion or a lookup that a refactoring moved into a helper
+    (or two inline copies merged into one helper) is then inspected exactly as if it were still written inline. On a tree where no such helper
+    exists the view IS the body."""
     b = cg.bodies[full]
+    cut = {f for f in cg.bodies if REENTRY.match(f)}
+    prims = {f for f in cg.bodies if PRIMITIVE.search(f)}
+    if insert_fn:
+        prims.add(insert_fn)
+
+    def want(cal):
+        cb = cg.bodies.get(cal)
+        if cb is None or cb.crate != b.crate or REENTRY.match(cal) or cal in evaluators or cal in prims:
+            return False
+        k = (cal, bool(values))
+        if k not in _relevant:
+            _relevant[k] = bool(cg.reach([cal], cut=cut) & prims)
+            # define family: a private, non-recursive helper that RETURNS a Value (or a Result/Option of one) produces what may end up bound to the
+            # new name: the provenance of the inserted value (R5) is followed through it (a conversion step extracted into a helper keeps the
+            # roots `expression` / `out` it had inline). A self-recursive helper (the detach helper) stays a call: it is summarised, not expanded.
+            if values and not _relevant[k] and not cb.pub and cal not in cb.mentioned_fns() \
+                    and re.match(r"^(core::result::Result<|core::option::Option<)?mech_core::value::Value\b", cb.locals[0]):
+                _relevant[k] = True
+        return _relevant[k]
+    return inline_body(b, cg, want, max_depth=3)
+
+
+def check_evaluator(F, rep, cg, variant, full, is_assign, mut_i, sym_i, insert_fn, evaluators=()):
+    b = evaluator_view(cg, full, insert_fn, evaluators, values=not is_assign)
+    for rec in b.inlined:
+        rep.note("followed", "%s: helper %s (called at line %s) inspected as part of the evaluator" % (full.split("::")[-1], rec["callee"], rec["site_line"]))
     sl = Slice(b)
     if is_assign:
         # R2: every symbol-cell lookup used by this evaluator is a mutable lookup
@@ -214,24 +270,18 @@ def check_evaluator(F, rep, cg, variant, full, is_assign, mut_i, sym_i, insert_f
                       sample={"evaluator": full, "lookup": cal, "line": t["l"]})
             # None branch must lead to Err exits only (NotMutable / UndefinedVariable)
             ok_exits, err_exits = result_exits(b)
-            nb = t.get("t")
-            found = False
-            hops = 0
-            while nb is not None and hops < 4 and not found:
-                blk = b.blocks[nb]
-                tt = blk["t"]
-                if tt["k"] == "switch":
-                    for s in blk["s"]:
-                        if s.get("rk") == "discr" and s["src"][0][0] == t["d"][0]:
-                            none_t = [tg for v, tg in tt["targets"] if v == 0] or [tt["else"]]
-                            some_t = [tg for v, tg in tt["targets"] if v == 1] or [tt["else"]]
-                            r = b.reachable_from([none_t[0]], avoid={some_t[0]})
-                            found = True
-                            rep.check(bool(r & err_exits) and not (r & ok_exits), "C05-R2", "%s:none-branch-errs:%s" % (full.split("::")[-1], cal.split("::")[-1]),
-                                      "when the mutable lookup fails %s does not return an error on every path" % full, "%s:%d" % (b.file, t["l"]))
-                    break
-                nb = tt.get("t") if tt["k"] in ("goto",) else None
-                hops += 1
+            tests = switches_on_option_result(b, i, t)
+            nkey = "%s:none-branch-errs:%s" % (full.split("::")[-1], cal.split("::")[-1])
+            for swb, some_t, none_t in tests[:1]:
+                r = feasible_reach(b, [none_t])
+                rep.check(bool(r & err_exits) and not (r & ok_exits) and some_t not in r, "C05-R2", nkey,
+                          "when the mutable lookup fails %s does not return an error on every path" % full, "%s:%d" % (b.file, t["l"]))
+            if not tests:
+                if option_none_becomes_err(b, i, t):
+                    rep.ok("C05-R2", nkey)           # `.ok_or_else(|| err)?`: None is an Err exit by construction
+                else:
+                    rep.note("undecided", "%s: the Option returned by %s (line %s) is not tested by a match / if let / let-else / ok_or..? that this rule can follow; "
+                                          "what happens when the lookup fails was not checked" % (full, cal, t["l"]))
         return
     # define family
     if insert_fn is None:
@@ -241,28 +291,41 @@ def check_evaluator(F, rep, cg, variant, full, is_assign, mut_i, sym_i, insert_f
     sites = []
     for i, t in b.calls():
         cal = t.get("f") or t["tf"]
-        if cal == insert_fn or (cal in cg.bodies and not REENTRY.match(cal) and insert_fn in cg.reach([cal], cut=cut) and re.search(r"save_symbol|save_env_symbol|insert", cal)):
+        # an insertion site is any call that may insert (whatever it is called); helpers of the evaluator's own crate were expanded above, what is
+        # left is the symbol-table API itself (SymbolTable::insert, ProgramState::save_symbol, ...) or a helper nested too deep to expand
+        if cal == insert_fn or (cal in cg.bodies and not REENTRY.match(cal) and insert_fn in cg.reach([cal], cut=cut)):
             sites.append((i, t, cal))
     if variant in ("KindDefine", "EnumDefine"):
         return
     rep.floor("C05-R3", "symbol insertion sites in %s" % full.split("::")[-1], len(sites), 1)
     ok_exits, err_exits = result_exits(b)
     contains = [(i, t) for i, t in b.calls() if re.search(r"(SymbolTable|ProgramState)::contains(_symbol)?$", t.get("f") or t["tf"])]
+    # "the name is already bound" tests: (block, call, branches) with branches = [(switch block, target when bound, target when free)]
+    #   table.contains(id)                                   -> the switch on the bool
+    #   table.get*(id).is_some() / .is_none()                -> the switch on the bool (is_none: polarity flipped)
+    #   if let Some(_) = table.get*(id) / match .. / let-else -> the switch on the Option's discriminant
+    LOOKUP = re.compile(r"(symbol_table::SymbolTable|program::ProgramState)::get\w*$")
+    bound_tests = [(ci, ct, switches_on_bool_result(b, ci, ct)) for ci, ct in contains]
+    for ci, ct in b.calls():
+        c_ = ct.get("f") or ct["tf"]
+        if LOOKUP.search(c_) and b.locals[ct["d"][0]].startswith("core::option::Option<"):
+            bound_tests.append((ci, ct, switches_on_option_result(b, ci, ct)))
+        elif re.search(r"option::Option::<T>::is_(some|none)$", c_) and ct["args"] and any(LOOKUP.search(r_) for r_ in sl.root_calls(ct["args"][0])):
+            br = switches_on_bool_result(b, ci, ct)
+            bound_tests.append((ci, ct, br if c_.endswith("is_some") else [(w, f_, t_) for w, t_, f_ in br]))
     for i, t, cal in sites:
         # R3
         good = False
-        for ci, ct in contains:
-            sw = switch_on_call_result(b, ci, ct)
-            if not sw:
-                continue
-            swb, t_true, t_false = sw
-            if t_false is None:
-                continue
-            rt = b.reachable_from([t_true], avoid={t_false})
-            if b.dominates(ci, i) and (rt & err_exits) and not (rt & ok_exits) and i not in rt:
-                good = True
-            elif (rt & err_exits) and not (rt & ok_exits) and i not in rt and two_pass(b, ci, i):
-                good = True          # validate-all-then-insert-all over the same sequence
+        for ci, ct, branches in bound_tests:
+            for swb, t_true, t_false in branches:
+                # everything the "already bound" branch can reach: Err exits only - never an Ok exit, never the insertion, and never the
+                # "free" branch itself (a guard whose body falls through, e.g. behind an extra condition, rejects nothing)
+                rt = feasible_reach(b, [t_true])
+                errs_only = bool(rt & err_exits) and not (rt & ok_exits) and i not in rt and t_false not in rt
+                if errs_only and b.dominates(swb, i):
+                    good = True
+                elif errs_only and two_pass(b, ci, i):
+                    good = True          # validate-all-then-insert-all over the same sequence
         if variant == "FsmDeclare":
             if not good:
                 rep.note("unconfirmed", "%s inserts a symbol (line %d) with no dominating redefinition test (no failing input established; not reported)" % (full, t["l"]))
@@ -271,7 +334,7 @@ def check_evaluator(F, rep, cg, variant, full, is_assign, mut_i, sym_i, insert_f
                   "%s inserts a symbol (line %d) without a dominating `contains` test that exits with Err: an existing name can be redefined" % (full, t["l"]), "%s:%d" % (b.file, t["l"]),
                   sample={"evaluator": full, "insert_line": t["l"], "contains_tests": [c[1]["l"] for c in contains]})
         # R4: Err exit reachable after the insertion
-        after = b.reachable_from([t["t"]]) if "t" in t else set()
+        after = feasible_reach(b, [t["t"]]) if "t" in t else set()
         errs = sorted(after & err_exits)
         lines = sorted({b.blocks[e]["t"].get("l", 0) or max([s.get("l", 0) for s in b.blocks[e]["s"]] or [0]) for e in errs})
         rep.check(not errs, "C05-R4", "%s:no-error-after-insert:%s:x%d" % (full.split("::")[-1], cal.split("::")[-1], len(lines)),
@@ -285,7 +348,9 @@ def check_evaluator(F, rep, cg, variant, full, is_assign, mut_i, sym_i, insert_f
                 if tb.locals[ai] == "mech_core::value::Value":
                     val_arg = ai - 1
         if val_arg is not None and val_arg < len(t["args"]):
-            roots = sl.roots(t["args"][val_arg])
+            # the value that is bound: the Err that a `?` inside an expanded helper hands back (from_residual) is not data that reaches the binding
+            sl5 = Slice(b, passthrough=DATA_PASS_THROUGH)
+            roots = {r for r in sl5.roots(t["args"][val_arg]) if not (r[0] == "call" and r[1].endswith("from_residual"))}
             # a chain made only of moves/clones back to a borrow of a symbol cell => alias. Anything else breaks the chain.
             calls = [r for r in roots if r[0] == "call"]
             detach = [r for r in calls if re.search(r"detach|deep_copy|deep_clone", r[1])]
@@ -304,28 +369,47 @@ def check_evaluator(F, rep, cg, variant, full, is_assign, mut_i, sym_i, insert_f
                 for r in calls:
                     if r[1] == h and len(r) > 2 and isinstance(r[2], int):
                         ht = b.blocks[r[2]]["t"]
-                        for rr in sl.roots(ht["args"][0]) if ht.get("args") else []:
+                        for rr in sl5.roots(ht["args"][0]) if ht.get("args") else []:
+                            if rr[0] == "call" and rr[1].endswith("from_residual"):
+                                continue
                             if rr[0] == "call":
                                 nm = re.sub(r"<.*?>", "", rr[1])
                                 sigs.add(nm.split("::")[-1] if "::" in nm else nm)
+                            elif rr[0] == "agg" and re.search(r"(result::Result|option::Option|control_flow::ControlFlow)::\w+$", rr[1]):
+                                continue                # the Ok(..) / Some(..) wrapper of an expanded helper's return value: what is inside is followed
                             else:
                                 sigs.add(rr[0])
-                        # how many plain copies (moves / clones, no computing call in between) of a value reach the helper through named variables:
-                        # each is a way for an existing variable's cell to become the new binding's cell
-                        varlocals = {v[0]: k for k, v in b.vars.items() if v[1] == ""}
-                        feeding = sl.locals_feeding(ht["args"][0]) if ht.get("args") else set()
-                        copies = 0
-                        for l in sorted(feeding & set(varlocals)):
-                            for blk_, s_ in sl.defs.get(l, []):
-                                if s_.get("k") == "call":
-                                    if PASS_THROUGH.search(s_.get("f") or s_["tf"]):
-                                        copies += 1
-                                elif s_.get("rk") in ("use", "ref", "cast", "un") or s_.get("rk") is None:
-                                    copies += 1
-                        sigs.add("copies=%d" % copies)
+                        # how many shallow clones of a variable's CELL CONTENT reach the helper by plain copies (moves, references, pass-through
+                        # calls - no computing call in between): `Value::MutableReference(v)` -> `v.borrow().clone()` -> .. -> helper. Each is a
+                        # way for an existing variable's storage to become the new binding's storage besides the helper's own shallow clone.
+                        # (This replaces the former count of plain copies through named locals, which moved with every named temporary, merged
+                        # duplicate or extracted helper; the clone-of-cell-content sites are counted by source position, so the expansion of one
+                        # helper at two call sites counts once.)
+                        sigs.add("cellclones=%d" % cell_content_clones(b, sl5, ht["args"][0]) if ht.get("args") else "cellclones=0")
                 shallow_sites[h].append(("%s:%d" % (full.split("::")[-1], t["l"]), full.split("::")[-1], ",".join(sorted(sigs))[:80]))
             if not shallow:
                 rep.ok("C05-R5", "%s:inserted-value-detached" % full.split("::")[-1], sample={"roots": sorted(map(str, calls))[:6]})
+
+
+def cell_content_clones(b, sl, operand):
+    """number of distinct source positions of `Clone::clone` calls on the plain-copy backward slice of `operand` whose receiver is (a borrow / deref of)
+    the payload of a `Value::MutableReference`, i.e. the content of some variable's cell"""
+    feeding = sl.locals_feeding(operand)
+    sites = set()
+    for l in feeding:
+        for blk_, s_ in sl.defs.get(l, []):
+            if s_.get("k") != "call" or not (s_.get("f") or s_["tf"]).endswith("::clone") or not s_.get("args") or not isinstance(s_["args"][0], list):
+                continue
+            recv = sl.locals_feeding(s_["args"][0])
+            payload = False
+            for r_ in recv:
+                for _, d_ in sl.defs.get(r_, []):
+                    for o_ in d_.get("src", []) or []:
+                        if isinstance(o_, list) and len(o_) > 1 and "@MutableReference" in str(o_[1]):
+                            payload = True
+            if payload:
+                sites.add((getattr(b, "origin", {}).get(blk_, b.fn), s_.get("l")))
+    return len(sites)
 
 
 def mutable_only(cg, fn, mut_i, seen):
